@@ -517,7 +517,7 @@ class LogVal:
     def of(v):
         if isinstance(v, LogVal):
             return v
-        if isinstance(v, (int, float)) and not isinstance(v, bool):
+        if isinstance(v, (int, float, _np.floating, _np.integer)) and not isinstance(v, bool):
             if v == 0:
                 return LogVal(1)
             if v == -math.inf:
